@@ -53,8 +53,11 @@ def main():
     ap.add_argument('--quiet', type=int, default=0)
     ap.add_argument('-v', action='store_true')
     args = ap.parse_args()
-    with open(os.path.join(HERE, 'mutants.json')) as f:
-        mutants = json.load(f)['mutants']
+    import glob
+    mutants = []
+    for mp in sorted(glob.glob(os.path.join(HERE, 'mutants*.json'))):
+        with open(mp) as f:
+            mutants.extend(json.load(f)['mutants'])
     root = scratch_root()
     out = tempfile.mkdtemp(prefix='oslo-selftest-out-', dir=root)
     rc_all = 0
